@@ -246,15 +246,33 @@ func c14analyseTOTP(p *pkgInfo) c14totp {
 				cls = "retFalse"
 			}
 		case *ast.RangeStmt:
-			if p.str(s.X) == "profile.TOTPAuthData" && c14containsCall(s.Body, "totp.Validate") {
-				// success path: failCount = 0, lockout = now, counter saved, stored, return true
+			if p.str(s.X) == "profile.TOTPAuthData" && c14containsCall(s.Body, "totpMatchedCounter") &&
+				!c14containsCall(s.Body, "totp.Validate") && !c14containsCall(s.Body, "totp.ValidateCustom") {
+				// per enabled device: matched step; a miss or a step not later than the last accepted one
+				// goes on to the next device (and so to the failure path); success path: counter saved,
+				// failCount = 0, lockout = now, stored, return true — in this order
 				src := p.str(s.Body)
-				if strings.Contains(src, rl+".failCount = 0") &&
-					strings.Contains(src, rl+".lockoutExpirationTime = time.Now()") &&
-					strings.Contains(src, "profile.LastSuccessfullTOTPCounter = counter") &&
-					strings.Contains(src, "state.totpLocalRateLimit[username] = "+rl) &&
-					strings.Contains(src, "return true, nil") &&
-					strings.Contains(src, "if !deviceInfo.Enabled { continue }") {
+				seq := []string{
+					"if !deviceInfo.Enabled { continue }",
+					"matchedCounter, valid := totpMatchedCounter(OTPString, string(clearTextKey), counter, defaultPeriod)",
+					"if !valid || matchedCounter <= profile.LastSuccessfullTOTPCounter { continue }",
+					"profile.LastSuccessfullTOTPCounter = matchedCounter",
+					rl + ".failCount = 0",
+					rl + ".lockoutExpirationTime = time.Now()",
+					"state.totpLocalRateLimit[username] = " + rl,
+					"return true, nil",
+				}
+				pos, ok := 0, true
+				for _, frag := range seq {
+					i := strings.Index(src[pos:], frag)
+					if i < 0 {
+						ok = false
+						res.Notes = append(res.Notes, "device loop: missing or out of order: "+frag)
+						break
+					}
+					pos += i + len(frag)
+				}
+				if ok && strings.Count(src, "continue") == 2 && strings.Count(src, "return true") == 1 {
 					cls = "deviceLoop"
 				}
 			}
@@ -341,6 +359,69 @@ func c14analyseTOTP(p *pkgInfo) c14totp {
 		}
 	}
 	return res
+}
+
+type c14match struct {
+	Offsets  []int64 `json:"offsets"`
+	OffsetOK bool    `json:"offsets_ok"`
+	Skew     int64   `json:"skew"`
+	SkewOK   bool    `json:"skew_ok"`
+	ShapeOK  bool    `json:"shape_ok"`
+}
+
+// totpMatchedCounter(passcode, secret, counter, period): which steps are tried, in which order,
+// with which skew, and that the step that validated is what is returned.
+func c14analyseMatch(p *pkgInfo) c14match {
+	var m c14match
+	fd := p.funcs["totpMatchedCounter"]
+	if fd == nil || fd.Body == nil || len(fd.Body.List) != 3 {
+		return m
+	}
+	// opts := totp.ValidateOpts{Period: period, Skew: 0, …}
+	if as, ok := fd.Body.List[0].(*ast.AssignStmt); ok && len(as.Rhs) == 1 && p.str(as.Lhs[0]) == "opts" {
+		if cl, ok := as.Rhs[0].(*ast.CompositeLit); ok && p.str(cl.Type) == "totp.ValidateOpts" {
+			period := false
+			for _, el := range cl.Elts {
+				if kv, ok := el.(*ast.KeyValueExpr); ok {
+					switch p.str(kv.Key) {
+					case "Skew":
+						if v, ok := p.evalInt(kv.Value, 0); ok && v >= 0 {
+							m.Skew, m.SkewOK = v, true
+						}
+					case "Period":
+						period = p.str(kv.Value) == "period"
+					}
+				}
+			}
+			m.SkewOK = m.SkewOK && period
+		}
+	}
+	rs, ok := fd.Body.List[1].(*ast.RangeStmt)
+	if ok && p.str(rs.Value) == "step" {
+		if cl, ok := rs.X.(*ast.CompositeLit); ok && p.str(cl.Type) == "[]int64" {
+			m.OffsetOK = true
+			for _, el := range cl.Elts {
+				switch p.str(el) {
+				case "counter":
+					m.Offsets = append(m.Offsets, 0)
+				case "counter - 1":
+					m.Offsets = append(m.Offsets, -1)
+				case "counter + 1":
+					m.Offsets = append(m.Offsets, 1)
+				default:
+					m.OffsetOK = false
+				}
+			}
+		}
+		body := p.str(rs.Body)
+		m.ShapeOK = len(rs.Body.List) == 2 &&
+			p.str(rs.Body.List[0]) == "valid, err := totp.ValidateCustom(passcode, secret, time.Unix(step*int64(period), 0), opts)" &&
+			strings.Contains(body, "if err == nil && valid { return step, true }")
+	}
+	if ret, ok := fd.Body.List[2].(*ast.ReturnStmt); !ok || p.str(ret) != "return 0, false" {
+		m.ShapeOK = false
+	}
+	return m
 }
 
 type c14guard struct {
@@ -639,7 +720,8 @@ func genC14(e *emitter) {
 	sh := c14analyseLimitCheck(p)
 	cfg := c14analyseConfig(p)
 	var guards []c14guard
-	var authCallers, totpValidate, totpCallers []string
+	mt := c14analyseMatch(p)
+	var authCallers, totpValidate, totpCallers, matchCallers []string
 	p.eachFunc(func(fd *ast.FuncDecl) {
 		if c14containsCall(fd.Body, "checkUserPassword") {
 			guards = append(guards, c14analyseGuard(p, fd))
@@ -653,11 +735,15 @@ func genC14(e *emitter) {
 		if c14containsCall(fd.Body, "validateUserTOTP") {
 			totpCallers = append(totpCallers, fd.Name.Name)
 		}
+		if c14containsCall(fd.Body, "totpMatchedCounter") {
+			matchCallers = append(matchCallers, fd.Name.Name)
+		}
 	})
 	sort.Slice(guards, func(i, j int) bool { return guards[i].Func < guards[j].Func })
 	sort.Strings(authCallers)
 	sort.Strings(totpValidate)
 	sort.Strings(totpCallers)
+	sort.Strings(matchCallers)
 
 	consts := map[string]int64{}
 	for _, n := range []string{"minSecsBetweenTOTPValidations", "numHoursForLocalTOTPRateLimitReset", "numFailedTOTPChecksForTimeoutIncrease"} {
@@ -715,11 +801,23 @@ func genC14(e *emitter) {
 		leanBool(cfg.Built), leanBool(cfg.OrderOK), cfg.AssignSites, cfg.MutatorCalls)
 	fmt.Fprintf(&b, "/-- functions calling `totp.Validate` / callers of validateUserTOTP -/\ndef totpValidateSites : List (List Char) := %s\ndef validateUserTOTPCallers : List (List Char) := %s\n",
 		c14charLists(totpValidate), c14charLists(totpCallers))
+	offs := "none"
+	if mt.OffsetOK {
+		var l []string
+		for _, o := range mt.Offsets {
+			l = append(l, fmt.Sprintf("%d", o))
+		}
+		offs = "some [" + strings.Join(l, ", ") + "]"
+	}
+	fmt.Fprintf(&b, "\n/-- `totpMatchedCounter`: the steps tried (offsets from `counter`, in order), the skew handed to\n`totp.ValidateCustom`, and that the step that validated is what is returned; its callers -/\n")
+	fmt.Fprintf(&b, "def matchOffsets : Option (List Int) := %s\ndef matchSkew : Option Nat := %s\ndef matchShapeOK : Bool := %s\ndef totpMatchedCounterCallers : List (List Char) := %s\n",
+		offs, c14optNat(mt.SkewOK, mt.Skew), leanBool(mt.ShapeOK), c14charLists(matchCallers))
 	b.WriteString("\nend KM.Gen.C14\n")
 	e.lean("C14.lean", b.String())
 	e.facts["c14"] = map[string]interface{}{
 		"consts": consts, "totp": tp, "backend_callers": guards, "password_authenticate_callers": authCallers,
 		"limit_check": sh, "limiter_config": cfg, "totp_validate_sites": totpValidate,
-		"validate_user_totp_callers": totpCallers,
+		"validate_user_totp_callers": totpCallers, "totp_matched_counter": mt,
+		"totp_matched_counter_callers": matchCallers,
 	}
 }
